@@ -4,6 +4,8 @@ import ImathVerif.Gen.C09Align
 import ImathVerif.Gen.C09Up
 import ImathVerif.Lemmas.C09Lemmas
 import ImathVerif.Lemmas.C09FrameLemmas
+import ImathVerif.Lemmas.C09AlignZ
+import ImathVerif.Lemmas.C09UpDir
 import Mathlib.Tactic.Ring
 import Mathlib.Tactic.FinCases
 import Mathlib.Analysis.SpecialFunctions.Trigonometric.Basic
@@ -26,15 +28,35 @@ section Frames
 variable {α : Type} [Field α] [LinearOrder α] [IsStrictOrderedRing α]
 
 set_option maxHeartbeats 1600000 in
-/-- `alignZAxisWithTargetDir`: the extracted 60-path tree equals the documented case analysis (`alignZSpec`), structurally -/
+/-- `alignZAxisWithTargetDir`: the extracted 80-path tree equals the documented case analysis (`alignZSpec`: zero replacement, rescaling of
+both arguments by their largest component — /repo 8e640b7 —, parallel fallbacks, the three normalised rows), structurally -/
 theorem alignZAxisWithTargetDir_spec (tmin tmax : α) (sqrt : α → α) (targetDir upDir : V3 α) :
     Gen.Frame.alignZAxisWithTargetDir tmin tmax sqrt targetDir upDir = alignZSpec (Gen.V3.length tmin tmax sqrt) targetDir upDir := by
   obtain ⟨tx, ty, tz⟩ := targetDir
   obtain ⟨ux, uy, uz⟩ := upDir
-  simp only [Gen.Frame.alignZAxisWithTargetDir, alignZSpec, nrm, cross, frameM44]
+  simp only [Gen.Frame.alignZAxisWithTargetDir, alignZSpec, scaleMax, maxAbs, nrm, cross, frameM44]
   generalize Gen.V3.length tmin tmax sqrt = len
-  simp only [mul_zero, zero_mul, mul_one, one_mul, sub_zero, zero_sub, sub_self, zero_div]
-  split_ifs <;> first | rfl | (simp_all; done)
+  -- the two zero tests come first in the code; below them the (rescaled) components are opaque
+  by_cases ht : len ⟨tx, ty, tz⟩ = 0 <;> by_cases hu : len ⟨ux, uy, uz⟩ = 0 <;> simp only [ht, hu, if_true, if_false]
+  · generalize smax (smax (sabs (0 : α)) (sabs 0)) (sabs 1) = m1
+    generalize smax (smax (sabs (0 : α)) (sabs 1)) (sabs 0) = m2
+    generalize (0 : α) / m1 = a0; generalize (1 : α) / m1 = a1; generalize (0 : α) / m2 = b0; generalize (1 : α) / m2 = b1
+    split_ifs <;> first | rfl | (simp_all; done)
+  · generalize smax (smax (sabs (0 : α)) (sabs 0)) (sabs 1) = m1
+    generalize smax (smax (sabs ux) (sabs uy)) (sabs uz) = mu
+    generalize (0 : α) / m1 = a0; generalize (1 : α) / m1 = a1
+    generalize ux / mu = b1; generalize uy / mu = b2; generalize uz / mu = b3
+    split_ifs <;> first | rfl | (simp_all; done)
+  · generalize smax (smax (sabs (0 : α)) (sabs 1)) (sabs 0) = m2
+    generalize smax (smax (sabs tx) (sabs ty)) (sabs tz) = mt
+    generalize (0 : α) / m2 = b0; generalize (1 : α) / m2 = b1
+    generalize tx / mt = a1; generalize ty / mt = a2; generalize tz / mt = a3
+    split_ifs <;> first | rfl | (simp_all; done)
+  · generalize smax (smax (sabs tx) (sabs ty)) (sabs tz) = mt
+    generalize smax (smax (sabs ux) (sabs uy)) (sabs uz) = mu
+    generalize tx / mt = a1; generalize ty / mt = a2; generalize tz / mt = a3
+    generalize ux / mu = b1; generalize uy / mu = b2; generalize uz / mu = b3
+    split_ifs <;> first | rfl | (simp_all; done)
 
 /-- EVERY path — zero target, zero up, up ∥ target (both fallback axes), generic — yields an orthonormal right-handed
 frame without translation whose z-row is the normalised target (`+z` for a zero target) -/
@@ -47,7 +69,7 @@ theorem alignZAxisWithTargetDir_frame (tmin tmax : α) (sqrt : α → α) (hlen 
   have h := alignZSpec_isFrame hlen targetDir upDir
   refine ⟨h.1, h.2.1, ?_⟩
   rw [h.2.2]; congr 1
-  simp only [azTarget, len_eq_zero_iff hlen]
+  simp only [azTarget0, len_eq_zero_iff hlen]
 
 /-- generic inputs (target ≠ 0, up not parallel to it): the documented axes — x-row `up × target`, y-row
 `target × (up × target)`, z-row `target`, all normalised -/
@@ -61,6 +83,20 @@ theorem alignZAxisWithTargetDir_axes (tmin tmax : α) (sqrt : α → α) (hlen :
 example : (⟨0, 0, 2⟩ : V3 ℝ) ≠ ⟨0, 0, 0⟩ ∧ cross (⟨0, 3, 0⟩ : V3 ℝ) ⟨0, 0, 2⟩ ≠ ⟨0, 0, 0⟩ := by
   constructor <;> simp [cross]
 
+/-- the documented PURPOSE of `upDir` ("the up vector pointing in a certain direction"), stated without reference to the cross-product order
+of the code: for a non-zero target and an up direction not parallel to it, the frame's y-row has a strictly POSITIVE component along
+`upDir`, its x-row none — `upDir` lies in the half plane `y > 0` of the frame's y–z plane — and the z-row is the target direction -/
+theorem alignZAxisWithTargetDir_up (tmin tmax : α) (sqrt : α → α) (hlen : LenSpec (Gen.V3.length tmin tmax sqrt)) (targetDir upDir : V3 α)
+    (ht : targetDir ≠ ⟨0, 0, 0⟩) (hut : cross upDir targetDir ≠ ⟨0, 0, 0⟩) :
+    0 < dot (row1 (Gen.Frame.alignZAxisWithTargetDir tmin tmax sqrt targetDir upDir)) upDir ∧
+      dot (row0 (Gen.Frame.alignZAxisWithTargetDir tmin tmax sqrt targetDir upDir)) upDir = 0 ∧
+      row2 (Gen.Frame.alignZAxisWithTargetDir tmin tmax sqrt targetDir upDir) = nrm (Gen.V3.length tmin tmax sqrt) targetDir := by
+  rw [alignZAxisWithTargetDir_axes tmin tmax sqrt hlen targetDir upDir ht hut]
+  obtain ⟨h1, h2⟩ := up_component_pos hlen ht hut
+  exact ⟨h1, h2, rfl⟩
+example : (⟨1, 0, 2⟩ : V3 ℝ) ≠ ⟨0, 0, 0⟩ ∧ cross (⟨0, 1, 0⟩ : V3 ℝ) ⟨1, 0, 2⟩ ≠ ⟨0, 0, 0⟩ := by
+  constructor <;> simp [cross]
+
 /-- fallbacks: a zero target is replaced by `+z`, a zero up by `+y` … -/
 theorem alignZAxisWithTargetDir_zero_target (tmin tmax : α) (sqrt : α → α) (hlen : LenSpec (Gen.V3.length tmin tmax sqrt)) (upDir : V3 α) :
     Gen.Frame.alignZAxisWithTargetDir tmin tmax sqrt ⟨0, 0, 0⟩ upDir = Gen.Frame.alignZAxisWithTargetDir tmin tmax sqrt ⟨0, 0, 1⟩ upDir := by
@@ -68,6 +104,12 @@ theorem alignZAxisWithTargetDir_zero_target (tmin tmax : α) (sqrt : α → α) 
 theorem alignZAxisWithTargetDir_zero_up (tmin tmax : α) (sqrt : α → α) (hlen : LenSpec (Gen.V3.length tmin tmax sqrt)) (targetDir : V3 α) :
     Gen.Frame.alignZAxisWithTargetDir tmin tmax sqrt targetDir ⟨0, 0, 0⟩ = Gen.Frame.alignZAxisWithTargetDir tmin tmax sqrt targetDir ⟨0, 1, 0⟩ := by
   rw [alignZAxisWithTargetDir_spec, alignZAxisWithTargetDir_spec]; exact alignZSpec_zero_up hlen targetDir
+/-- the same when `upDir` is zero (documented substitute `+y`), for a target not along `±y` -/
+theorem alignZAxisWithTargetDir_up_default (tmin tmax : α) (sqrt : α → α) (hlen : LenSpec (Gen.V3.length tmin tmax sqrt)) (targetDir : V3 α)
+    (ht : targetDir ≠ ⟨0, 0, 0⟩) (hut : cross ⟨0, 1, 0⟩ targetDir ≠ ⟨0, 0, 0⟩) :
+    0 < dot (row1 (Gen.Frame.alignZAxisWithTargetDir tmin tmax sqrt targetDir ⟨0, 0, 0⟩)) ⟨0, 1, 0⟩ := by
+  rw [alignZAxisWithTargetDir_zero_up tmin tmax sqrt hlen]
+  exact (alignZAxisWithTargetDir_up tmin tmax sqrt hlen targetDir ⟨0, 1, 0⟩ ht hut).1
 /-- … and an up direction exactly parallel to the target by `target × x̂`, or by `target × ẑ` when the target is along x;
 the substituted up is never parallel to the target -/
 theorem alignZAxisWithTargetDir_parallel (tmin tmax : α) (sqrt : α → α) (hlen : LenSpec (Gen.V3.length tmin tmax sqrt)) (targetDir upDir : V3 α)
@@ -124,6 +166,32 @@ theorem rotationMatrixWithUpDir_frame (tmin tmax : α) (sqrt : α → α) (hlen 
     ext j; fin_cases j <;> simp [V3.toVec, row2, rot3]
   rw [hrow, vecMul_transpose_row2 hA.1.1, ← hB.2.2]
   ext j; fin_cases j <;> simp [V3.toVec, row2, rot3, Matrix.vecMul, dotProduct, Fin.sum_univ_three]
+/-- WHAT the rotation is, row by row: `rotationMatrixWithUpDir (from, to, up)` takes the whole frame `alignZ (from, +y)` (z-row `from^`,
+y-row "world up seen perpendicular to `from`") onto the frame `alignZ (to, up)` (z-row `to^`, y-row towards `up`) — for ANY `toDir`,
+`upDir` (fallbacks included) and `fromDir ≠ 0` -/
+theorem rotationMatrixWithUpDir_frames (tmin tmax : α) (sqrt : α → α) (hlen : LenSpec (Gen.V3.length tmin tmax sqrt)) (fromDir toDir upDir : V3 α)
+    (hf : fromDir ≠ ⟨0, 0, 0⟩) :
+    rot3 (Gen.Frame.alignZAxisWithTargetDir tmin tmax sqrt fromDir ⟨0, 1, 0⟩) * rot3 (Gen.Frame.rotationMatrixWithUpDir tmin tmax sqrt fromDir toDir upDir)
+      = rot3 (Gen.Frame.alignZAxisWithTargetDir tmin tmax sqrt toDir upDir) := by
+  have hA := alignZAxisWithTargetDir_frame tmin tmax sqrt hlen fromDir ⟨0, 1, 0⟩
+  have hB := alignZAxisWithTargetDir_frame tmin tmax sqrt hlen toDir upDir
+  have hl : Gen.V3.length tmin tmax sqrt fromDir ≠ 0 := len_ne_zero hlen hf
+  have e := rotationMatrixWithUpDir_eq_alignZ tmin tmax sqrt fromDir toDir upDir
+  rw [if_neg hl] at e
+  obtain ⟨_, _, hr⟩ := isFrame_transpose_mul hA.1 hA.2.1 hB.1 hB.2.1 e
+  rw [hr]; exact rot_mul_transpose_mul hA.1.1
+/-- the up-direction clause: the from-frame's up axis (y-row of `alignZ (from, +y)`) is sent to a unit vector with a strictly POSITIVE
+component along `upDir` and perpendicular to `to` (namely the y-row of `alignZ (to, up)`), whenever `toDir ≠ 0` and `upDir ∦ toDir` -/
+theorem rotationMatrixWithUpDir_up (tmin tmax : α) (sqrt : α → α) (hlen : LenSpec (Gen.V3.length tmin tmax sqrt)) (fromDir toDir upDir : V3 α)
+    (hf : fromDir ≠ ⟨0, 0, 0⟩) (ht : toDir ≠ ⟨0, 0, 0⟩) (hut : cross upDir toDir ≠ ⟨0, 0, 0⟩) :
+    (row1 (Gen.Frame.alignZAxisWithTargetDir tmin tmax sqrt fromDir ⟨0, 1, 0⟩)).toVec
+        ᵥ* rot3 (Gen.Frame.rotationMatrixWithUpDir tmin tmax sqrt fromDir toDir upDir)
+      = (row1 (Gen.Frame.alignZAxisWithTargetDir tmin tmax sqrt toDir upDir)).toVec ∧
+    0 < dot (row1 (Gen.Frame.alignZAxisWithTargetDir tmin tmax sqrt toDir upDir)) upDir := by
+  refine ⟨?_, (alignZAxisWithTargetDir_up tmin tmax sqrt hlen toDir upDir ht hut).1⟩
+  rw [row1_toVec, row_vecMul, rotationMatrixWithUpDir_frames tmin tmax sqrt hlen fromDir toDir upDir hf, row1_toVec]
+example : (⟨1, 0, 0⟩ : V3 ℝ) ≠ ⟨0, 0, 0⟩ ∧ (⟨1, 0, 2⟩ : V3 ℝ) ≠ ⟨0, 0, 0⟩ ∧ cross (⟨0, 1, 0⟩ : V3 ℝ) ⟨1, 0, 2⟩ ≠ ⟨0, 0, 0⟩ := by
+  refine ⟨by simp, by simp, by simp [cross]⟩
 /-- a zero `fromDir` gives the identity -/
 theorem rotationMatrixWithUpDir_zero_from (tmin tmax : α) (sqrt : α → α) (hlen : LenSpec (Gen.V3.length tmin tmax sqrt)) (toDir upDir : V3 α) :
     (Gen.Frame.rotationMatrixWithUpDir tmin tmax sqrt ⟨0, 0, 0⟩ toDir upDir).toMat = 1 := by
